@@ -243,3 +243,21 @@ Proof.
   destruct (wf_perm_v2l s H v Hv') as [lvl' [F1 F2]]. rewrite E1 in F1. inversion F1; subst lvl'.
   rewrite (ext_l2v _ _ X), F2. destruct (a v); reflexivity.
 Qed.
+
+(** the binary operators in terms of Boolean functions of assignments *)
+Theorem apply_bin_bfun : forall gt C cget cadd, lossy cget cadd ->
+  forall op s (c : C) f g,
+  BddOK s -> CacheOK cget s c -> ref_ok s f -> ref_ok s g ->
+  exists s' c' r, apply_bin gt C cget cadd (S (nlevels s)) s c op f g = Some (s', c', r) /\
+    BddOK s' /\ extends s s' /\
+    forall a, bfun_of s' r a = lift2 op (bfun_of s f) (bfun_of s g) a.
+Proof.
+  intros gt C cget cadd L op s c f g B O Hf Hg.
+  destruct (den_exists s f B Hf) as [phi Df]. destruct (den_exists s g B Hg) as [psi Dg].
+  destruct (apply_bin_ok gt C cget cadd L op (S (nlevels s)) s c f g phi psi B O Df Dg ltac:(lia))
+    as [s' [c' [r [E [B' [X [_ [D' _]]]]]]]].
+  exists s', c', r. split; [exact E|]. split; [exact B'|]. split; [exact X|].
+  intros a. unfold lift2.
+  rewrite (bfun_of_den s' r _ D'), (bfun_of_den s f phi Df), (bfun_of_den s g psi Dg).
+  unfold choice_of. rewrite (ext_l2v _ _ X). reflexivity.
+Qed.
